@@ -93,7 +93,10 @@ def gated_run(inputs, schedule, base):
     """inputs: one path per process (1-based in the schedule); returns the recorded events, final listing, outputs"""
     tmpdir = os.path.join(base, "tmp")
     os.makedirs(tmpdir)
-    kids = [Child("import", inp, os.path.join(base, "out%d.db" % (i + 1)), tmpdir, True) for i, inp in enumerate(inputs)]
+    # separate output files - with the SAME base name in different directories (sample1/annotation.db, sample2/annotation.db, ...)
+    for i in range(len(inputs)):
+        os.makedirs(os.path.join(base, "sample%d" % (i + 1)))
+    kids = [Child("import", inp, os.path.join(base, "sample%d" % (i + 1), "annotation.db"), tmpdir, True) for i, inp in enumerate(inputs)]
     pending = [None] * len(kids)
     events = []
     try:
@@ -211,7 +214,8 @@ def burst(ctx, inputs, solo, n, base):
     kinds = [ctx.rng.choice(sorted(inputs)) for _ in range(n)]
     kids = []
     for i, k in enumerate(kinds):
-        kids.append(Child("import", inputs[k], os.path.join(base, "o%d.db" % i), tmpdir, False))
+        os.makedirs(os.path.join(base, "sample%d" % i))
+        kids.append(Child("import", inputs[k], os.path.join(base, "sample%d" % i, "annotation.db" if i % 2 else "o%d.db" % i), tmpdir, False))
         time.sleep(ctx.rng.choice([0, 0, 0.002, 0.01, 0.03]))
     traces = []
     for i, (k, kind) in enumerate(zip(kids, kinds)):
